@@ -238,8 +238,11 @@ class World:
         if k == "write":
             p = self.abs(op["path"])
             os.makedirs(os.path.dirname(p), exist_ok=True)
+            data = content_bytes(op["content"])
+            if isinstance(op["content"], str) and op["content"].startswith("text:"):
+                data = data.replace(b"$ROOT", self.root.encode())
             with open(p, "wb") as f:
-                f.write(content_bytes(op["content"]))
+                f.write(data)
         elif k == "remove":
             p = self.abs(op["path"])
             if os.path.isdir(p) and not os.path.islink(p):
@@ -299,7 +302,7 @@ class World:
         k = self.inv_count
         self.settle()
         cwd = self.abs(op.get("cwd", "."))
-        argv = ["nanoemoji"] + list(op["argv"])
+        argv = ["nanoemoji"] + [a.replace("$ROOT", self.root) for a in op["argv"]]
         env = self.child_env(op.get("env"))
         drv_log = os.path.join(self.side, "inv%d.driver.log" % k)
         step_log = os.path.join(self.side, "inv%d.steps.log" % k)
